@@ -83,7 +83,7 @@ Proof.
   - (* Trash1 *) destruct (artifact_present s d); simpl; [apply (urecs_same s); [apply ds_trash_recs | exact U] | exact U].
   - (* Ingest *) destruct (ctype s r) as [[] |]; simpl; try exact U.
     destruct (d1 =? d2) eqn:E0; simpl; [exact U |]. destruct (negb _); simpl; [exact U |].
-    destruct (has_rec s d1 || memN d1 (loc s) || (has_rec s d2 || memN d2 (loc s))) eqn:E; simpl; [apply (urecs_same s); [reflexivity | exact U] |].
+    destruct (has_rec s d1 || memN d1 (loc s) || (has_rec s d2 || memN d2 (loc s))) eqn:E; simpl; [exact U |].
     apply orb_false_iff in E. destruct E as [E1 E2]. apply orb_false_iff in E1, E2. destruct E1 as [A1 _]. destruct E2 as [A2 _].
     apply N.eqb_neq in E0. unfold urecs. simpl. constructor; [| constructor; [| exact U]].
     + simpl. intros [F | F]; [exact (E0 (eq_sym F)) |]. apply in_map_iff in F. destruct F as [[d' p] [F1 F2]]. simpl in F1. subst d'.
